@@ -81,6 +81,14 @@ def bool_term_atom(t, pol=True, names=None):
             op, pol = "Gt", not pol
         if op == "Lt":
             op, pol = "Ge", not pol
+        if a[0] == "len" and b[0] == "const" and b[1] == "int":
+            # lengths are unsigned: len == 0  <=>  !(len > 0) ;  len >= 1  <=>  len > 0
+            if op == "Eq" and b[2] == 0:
+                op, pol = "Gt", not pol
+            elif op == "Ge" and b[2] == 1:
+                op, b = "Gt", ("const", "int", 0)
+            elif op == "Ge" and b[2] == 0:
+                return ("const", pol)
         return (pol, "%s(%s, %s)" % (op.lower(), show(a, names), show(b, names)))
     if t[0] == "call":
         return (pol, "%s(%s)" % (short_fn(t[1]), ", ".join(show(a, names) for a in t[2])))
